@@ -414,9 +414,9 @@ Section Envelope.
                                | Some ft => if composite S (unwrap ft) then negb (is_nil sub)
                                             else is_nil sub && leaf_type S (unwrap ft)
                                end
-                      | SInline c _ => composite S (inline_cond t c)
+                      | SInline c _ => composite S (inline_cond t c) && overlap S (inline_cond t c) t
                       | SSpread n c body =>
-                          composite S c &&
+                          composite S c && overlap S c t &&
                           match find_frag frs n with
                           | Some fr => bytes_eqb (fr_cond fr) c && sels_eqb (fr_sels fr) body
                           | None => false
@@ -549,65 +549,78 @@ Definition go_ident_ok (n : name) : bool :=
 Definition decl_names_ok (p : program) : bool :=
   nodupb (decl_names p) && forallb go_ident_ok (decl_names p).
 
-(** known finding [decl-name-clash]: two generated declarations (enum types, enum constants,
-    sel.. types, ..Data / ..Fragment types, the json import) get the same identifier, or one gets
-    an identifier Go or the generated code reserves *)
-Definition excl_decl_clash (S : schema) (d : document) : bool :=
-  match generate no_quirks S (doc_valid S d) d with
-  | GOk p => negb (decl_names_ok p)
-  | _ => false
+(** ** "compiles", the modelled part *)
+Definition field_named (fs : list gofield) (n : name) : option gofield :=
+  find (fun f => bytes_eqb (gf_name f) n) fs.
+
+Definition step_ok (fs : list gofield) (st : ustep) : bool :=
+  match st with
+  | UAlways f => match field_named fs f with Some _ => true | None => false end
+  | USwitch tn oks f =>
+      match field_named fs tn with Some (_, _, GString) => true | _ => false end &&
+      nodupb oks &&
+      match field_named fs f with Some _ => true | None => false end
   end.
 
-(** ** "compiles", the modelled part *)
+(** field names of every struct are distinct, every statement group of an UnmarshalJSON refers to
+    existing fields (the switch to a string field, with distinct case constants) *)
+Fixpoint wf_shape (t : gotype) : bool :=
+  match t with
+  | GString | GInt | GFloat | GBool | GIface | GEnum _ | GFragRef _ => true
+  | GEmpty => false
+  | GScalar _ => false
+  | GPtr t' => wf_shape t'
+  | GSlice t' => wf_shape t'
+  | GStruct fs => nodupb (map gf_name fs) && forallb (fun f : name * gotag * gotype => wf_shape (snd f)) fs
+  | GSel _ _ fs steps =>
+      nodupb (map gf_name fs) && forallb (fun f : name * gotag * gotype => wf_shape (snd f)) fs &&
+      forallb (step_ok fs) steps
+  end.
+
+(** every field name is a usable Go identifier *)
+Fixpoint idents_ok (t : gotype) : bool :=
+  match t with
+  | GPtr t' => idents_ok t'
+  | GSlice t' => idents_ok t'
+  | GStruct fs => forallb (fun f : name * gotag * gotype => go_ident_ok (fst (fst f)) && idents_ok (snd f)) fs
+  | GSel _ _ fs _ => forallb (fun f : name * gotag * gotype => go_ident_ok (fst (fst f)) && idents_ok (snd f)) fs
+  | _ => true
+  end.
+
 Section WF.
   Variable P : program.
 
-  Definition field_named (fs : list gofield) (n : name) : option gofield :=
-    find (fun f => bytes_eqb (gf_name f) n) fs.
-
-  Definition step_ok (fs : list gofield) (st : ustep) : bool :=
-    match st with
-    | UAlways f => match field_named fs f with Some _ => true | None => false end
-    | USwitch tn oks f =>
-        match field_named fs tn with Some (_, _, GString) => true | _ => false end &&
-        nodupb oks &&
-        match field_named fs f with Some _ => true | None => false end
-    end.
-
-  Fixpoint wf_type (t : gotype) : bool :=
+  (** every referenced named type is declared *)
+  Fixpoint refs_ok (t : gotype) : bool :=
     match t with
-    | GString | GInt | GFloat | GBool | GIface => true
-    | GEmpty => false
     | GEnum n => match assoc n (p_enums P) with Some _ => true | None => false end
-    | GScalar _ => false
-    | GPtr t' => wf_type t'
-    | GSlice t' => wf_type t'
-    | GStruct fs =>
-        nodupb (map gf_name fs) &&
-        (fix go (fs : list (name * gotag * gotype)) : bool :=
-           match fs with
-           | [] => true
-           | (n, tg, t') :: r =>
-               go_ident_ok n && match tg with TagBoth _ => false | _ => true end && wf_type t' && go r
-           end) fs
-    | GSel _ _ fs steps =>
-        nodupb (map gf_name fs) &&
-        (fix go (fs : list (name * gotag * gotype)) : bool :=
-           match fs with
-           | [] => true
-           | (n, tg, t') :: r =>
-               go_ident_ok n && match tg with TagBoth _ => false | _ => true end && wf_type t' && go r
-           end) fs &&
-        forallb (step_ok fs) steps
     | GFragRef f => match lookup_def P (frag_type_name f) with Some _ => true | None => false end
+    | GPtr t' => refs_ok t'
+    | GSlice t' => refs_ok t'
+    | GStruct fs => forallb (fun f : name * gotag * gotype => refs_ok (snd f)) fs
+    | GSel _ _ fs _ => forallb (fun f : name * gotag * gotype => refs_ok (snd f)) fs
+    | _ => true
     end.
 
   Definition wf_def (d : typedefn) : bool :=
-    wf_type (td_type d) &&
+    wf_shape (td_type d) && refs_ok (td_type d) && idents_ok (td_type d) && type_syntax_ok (td_type d) &&
     (negb (td_forward d) || match td_type d with GSel _ _ _ _ => true | _ => false end).
 
-  Definition wf_program : bool := decl_names_ok P && forallb wf_def (p_defs P).
+  Definition wf_program : bool :=
+    decl_names_ok P && forallb (fun e : name * list (name * name) => negb (go_keyword (fst e))) (p_enums P) &&
+    forallb wf_def (p_defs P).
 End WF.
+
+(** known finding [decl-name-clash]: two generated declarations (enum types, enum constants,
+    sel.. types, ..Data / ..Fragment types, the json import) get the same identifier, or a name of
+    the schema or the document is used where Go or the generated code cannot take it (an enum named
+    by a keyword, string, error, s, b ...; a type or fragment named "_" or beginning with "__",
+    whose struct field is not an identifier / gets two tags) *)
+Definition excl_decl_clash (S : schema) (d : document) : bool :=
+  match generate_raw no_quirks S (doc_valid S d) d with
+  | GOk p => negb (decl_names_ok p && program_syntax_ok p && forallb (fun dfn => idents_ok (td_type dfn)) (p_defs p))
+  | _ => false
+  end.
 
 (** ** Responses shaped by an operation *)
 Inductive rv :=
@@ -634,6 +647,60 @@ Fixpoint json_of (w : rv) : json :=
   | RObj _ fs => JObj (map (fun kv => (fst kv, json_of (snd kv))) fs)
   end.
 
+(** a value of (wrapped) type [ft]: null only where the type is nullable, lists of any length;
+    what a leaf / an object has to satisfy is given by [leafc] / [objc] *)
+Section ConfVal.
+  Variable leafc : name -> leaf -> bool.
+  Variable objc : name -> name -> list (bytes * rv) -> bool.
+
+  Fixpoint conf_val (ft : gqltype) (nn : bool) (w : rv) {struct ft} : bool :=
+    match ft with
+    | TNonNull ft' => conf_val ft' true w
+    | TList ft' =>
+        match w with
+        | RNull => negb nn
+        | RList l => forallb (conf_val ft' false) l
+        | _ => false
+        end
+    | TNamed n =>
+        match w with
+        | RNull => negb nn
+        | RLeaf l => leafc n l
+        | RObj tn fs => objc n tn fs
+        | RList _ => false
+        end
+    end.
+End ConfVal.
+
+Fixpoint exp_list (f : rv -> list (path * leaf)) (i : N) (l : list rv) : list (path * leaf) :=
+  match l with
+  | [] => []
+  | x :: r => prefix (PIdx i) (f x) ++ exp_list f (i + 1) r
+  end.
+
+(** the selected leaves of such a value *)
+Section ExpVal.
+  Variable obje : name -> name -> list (bytes * rv) -> list (path * leaf).
+
+  Fixpoint exp_val (ft : gqltype) (w : rv) {struct ft} : list (path * leaf) :=
+    match ft with
+    | TNonNull ft' => exp_val ft' w
+    | TList ft' =>
+        match w with
+        | RList [] => [([], LEmpty)]
+        | RList l => exp_list (exp_val ft') 0 l
+        | _ => [([], LNull)]
+        end
+    | TNamed n =>
+        match w with
+        | RNull => [([], LNull)]
+        | RLeaf l => [([], l)]
+        | RObj tn fs => obje n tn fs
+        | RList _ => []
+        end
+    end.
+End ExpVal.
+
 Section Shaped.
   Variable S : schema.
 
@@ -652,10 +719,9 @@ Section Shaped.
 
   Definition keys_distinct (fs : list (bytes * rv)) : bool := nodupb (map (fun kv => lower_bytes (fst kv)) fs).
 
-  (** the fields [fs] of an object of concrete type [tn] answer the selections [sels] made at
-      type [t]: every selected key is present with a value of the field's type (null only where
-      the type is nullable, any list length), __typename holds [tn], and fragments apply exactly
-      when [tn] is a possible type of their condition *)
+  (** the fields [fs] of an object of concrete type [tn] answer selection [s] made at type [t]:
+      a selected key is present with a value of the field's type, __typename holds [tn], and
+      fragments apply exactly when [tn] is a possible type of their condition *)
   Fixpoint conf_sel (tn t : name) (fs : list (bytes * rv)) (s : selection) {struct s} : bool :=
     match s with
     | SField a f sub =>
@@ -666,25 +732,11 @@ Section Shaped.
             else match field_type S t f with
                  | None => false
                  | Some ft =>
-                     (fix cv (ft : gqltype) (nn : bool) (w : rv) {struct ft} : bool :=
-                        match ft with
-                        | TNonNull ft' => cv ft' true w
-                        | TList ft' =>
-                            match w with
-                            | RNull => negb nn
-                            | RList l => forallb (cv ft' false) l
-                            | _ => false
-                            end
-                        | TNamed n =>
-                            match w with
-                            | RNull => negb nn
-                            | RLeaf l => leaf_conf n l && is_nil sub
-                            | RObj tn' fs' =>
-                                composite S n && is_object_type S tn' && subtype S tn' n &&
-                                keys_distinct fs' && forallb (conf_sel tn' n fs') sub
-                            | RList _ => false
-                            end
-                        end) ft false w
+                     conf_val (fun n l => leaf_conf n l && is_nil sub)
+                              (fun n tn' fs' =>
+                                 composite S n && is_object_type S tn' && subtype S tn' n &&
+                                 keys_distinct fs' && forallb (conf_sel tn' n fs') sub)
+                              ft false w
                  end
         end
     | SInline c sub =>
@@ -708,29 +760,7 @@ Section Shaped.
               (if is_typename f then match w with RLeaf l => [([], l)] | _ => [] end
                else match field_type S t f with
                     | None => []
-                    | Some ft =>
-                        (fix ev (ft : gqltype) (w : rv) {struct ft} : list (path * leaf) :=
-                           match ft with
-                           | TNonNull ft' => ev ft' w
-                           | TList ft' =>
-                               match w with
-                               | RList [] => [([], LEmpty)]
-                               | RList l =>
-                                   (fix go (i : N) (l : list rv) : list (path * leaf) :=
-                                      match l with
-                                      | [] => []
-                                      | x :: r => prefix (PIdx i) (ev ft' x) ++ go (i + 1) r
-                                      end) 0 l
-                               | _ => [([], LNull)]
-                               end
-                           | TNamed n =>
-                               match w with
-                               | RNull => [([], LNull)]
-                               | RLeaf l => [([], l)]
-                               | RObj tn' fs' => flat_map (exp_sel tn' n fs') sub
-                               | RList _ => []
-                               end
-                           end) ft w
+                    | Some ft => exp_val (fun n tn' fs' => flat_map (exp_sel tn' n fs') sub) ft w
                     end)
         end
     | SInline c sub =>
